@@ -210,8 +210,14 @@ def run_cbmc(obl, final, wd, unwind, unwindset, timeout, extra=(), tagsuffix='')
                 pr['fo'].close()
                 # a back end that crashed / ran out of memory is not a verdict; look at the output
                 chk = parse_cbmc(pr['out'])
-                if chk['verdict'] == 'parsed':
+                # a back end that leaves properties without verdict (status ERROR/UNKNOWN: e.g. the external SAT solver when cbmc
+                # needs several solver iterations) is no verdict either: keep waiting for the others, fall back to it only if all fail
+                noverdict = [r for r in chk.get('results', []) if r.get('status') not in ('SUCCESS', 'FAILURE')]
+                if chk['verdict'] == 'parsed' and not noverdict:
                     winner = pr
+                elif chk['verdict'] == 'parsed':
+                    pr['bad'] = '%d properties without verdict' % len(noverdict)
+                    pr['partial'] = True
                 else:
                     pr['bad'] = chk.get('error', '')
         if winner is not None or alive == 0:
@@ -233,7 +239,8 @@ def run_cbmc(obl, final, wd, unwind, unwindset, timeout, extra=(), tagsuffix='')
             pass
     wall = time.time() - t0
     if winner is None:
-        winner = procs[0]
+        part = [pr for pr in procs if pr.get('partial')]
+        winner = part[0] if part else procs[0]
         if status != 'timeout':
             status = 'ok'   # parse_cbmc on the output will report the error
     rss = 0
